@@ -3,6 +3,7 @@ the runner Ops/Multi.v; closed-world theorems over the timer-firing simulator
 Ops/TimedSim.v (Props/C16.v); tie: K2 multi-source port-level replay with the
 proxy scheduler (harness/k2m.py, harness/timed_table.py); oracle: below, a
 direct reading of the property statement on the implementation's log."""
+import sched_prec as sp
 import timed_extra as te
 import timed_table as tt
 from timed_table import view, common_timed, elems, terminal, src_view
@@ -247,6 +248,8 @@ def run(chk):
     te.run_families(chk, "C16", {"fb_debounce": (300, 4000), "fb_throttle_mapper": (300, 4000),
                                  "twm_kinds": (300, 4000), "fb_sample_period": (150, 2000),
                                  "throttle_first_nonpositive": (40, 300)})
+    # scheduler precedence (harness/sched_prec.py): operator scheduler vs subscribe-time scheduler vs default
+    sp.run_family(chk, "C16", 400, 6000)
     chk.cov["rule"] = ("per operator: seeded instances (due times / windows / periods 0/5/10/20 ms as float seconds or "
                        "timedelta; scheduler passed to the operator or to subscribe; mapper tables indexed by "
                        "invocation, 12% raising) x seeded timelines of hand-driven hot sources on the proxy "
@@ -265,6 +268,7 @@ def run(chk):
                        "hand-held, or are real timer(x)/empty()/of() under TestScheduler; throttle_first_nonpositive = "
                        "zero / negative windows (refused with nothing emitted, or everything passes); same-instant "
                        "orders the text leaves open are skipped as ties (counted)")
+    chk.cov["rule"] += sp.RULE
     chk.cov["operators_modelled"] = NAMES
     return chk.finish(trusted_extra=[
         "multi-source K2 driver harness/k2m.py with its proxy scheduler (integer-millisecond virtual clock, records "
@@ -279,12 +283,15 @@ def run(chk):
         "harness/timed_table.py run_case/warm_up: the warm-up subscription and the clock offset are applied inside "
         "the build callback handed to k2m.run_multi (the harness state is wiped as k2m does after its own warm-up)",
         "harness/timed_extra.py: oracle-only families with their own hand-made hot source, TestScheduler driver and "
-        "references written from the property text (no Coq model behind them)"],
+        "references written from the property text (no Coq model behind them)",
+        sp.TRUSTED],
         assumptions=["timelines are in integer milliseconds; datetime/timedelta arithmetic is exact on them",
                      "sample(period): runs are cut at a horizon of 3 periods after the last source event"])
 
 
 def replay(chk, path):
+    if sp.is_replay(path):
+        return sp.replay("C16", path)
     if te.is_family_replay(path):
         return te.replay_family("C16", path)
     return tt.replay_cases("C16", oracle, path)
